@@ -303,6 +303,17 @@ def selfref_cases(path, data, fs, w):
         bt = [s for s, e, k, o in ext if k == "btree1-group"]
         if bt:
             add("cached symbol table -> an enclosing group's B-tree", [(f["off"] - 8, le(1, 4)), (f["off"], le(bt[0], O))])
+    # -- object headers made of very many tiny messages (every message gets a buffer of its own)
+    for f in find(fs, "msg.link.addr")[:1]:
+        nm = 120000
+        body = (bytes([0xFE]) + le(1, 2) + b"\0" + b"x") * nm
+        hdr = b"OHDR" + bytes([2, 0x02]) + le(len(body) + 4, 4) + body + b"\0\0\0\0"
+        add("link -> version 2 header with 120000 one-byte messages", [(f["off"], le(n, O)), (n, hdr)], field=f["name"])
+    for f in find(fs, "snod.entry.obj")[:1]:
+        nm = 65535
+        body = (le(0xFE, 2) + le(8, 2) + b"\0\0\0\0" + b"x" * 8) * nm
+        hdr = bytes([1, 0]) + le(nm, 2) + le(1, 4) + le(len(body), 4) + b"\0" * 4 + body
+        add("symbol table entry -> version 1 header with 65535 messages", [(f["off"], le(n, O)), (n, hdr)], field=f["name"])
     # -- dimension products that wrap 2^64, zero-size compound
     dims = find(fs, "msg.dataspace.dim")
     for i in range(0, len(dims) - 1, 2):
@@ -552,7 +563,9 @@ def run(ctx):
             continue
         data = w["data"]
         fs = c07fields.fields(w)
-        fc = field_cases(p, data, fs, rng, cap)
+        # thorough: complete single-field coverage for files up to 64 KiB, a deterministic sample (extremes first) above that
+        fcap = cap if quick else (None if len(data) <= 65536 else 1200)
+        fc = field_cases(p, data, fs, rng, fcap)
         rc = random_cases(p, data, fs, rng, nrand)
         sc = selfref_cases(p, data, fs, w)
         for f in fs:
